@@ -29,6 +29,7 @@ _sort_cache: dict = {}
 # operations matter, by an uninterpreted sort (kind 'pstr'): far cheaper under quantifiers, and an abstraction
 # (every fact proved holds for real strings, since the opaque operations are consistent with the real ones).
 STRING_MODE = ['theory']
+KIND_SUBST: dict = {}     # generic kind variables of the contract being applied (e.g. Comb := tuple[str,str])
 PSTR = z3.DeclareSort('PyStr')
 PCONCAT = z3.Function('pstr_concat', PSTR, PSTR, PSTR)
 PCONTAINS = z3.Function('pstr_contains', PSTR, PSTR, z3.BoolSort())
@@ -435,6 +436,8 @@ def parse_kind(s):
             m = {'int': 'int', 'float': 'real', 'real': 'real', 'bool': 'bool',
                  'str': 'pstr' if STRING_MODE[0] == 'opaque' else 'str', 'none': 'none',
                  'int32': 'int', 'uint32': 'int', 'float32': 'real', 'b1': 'bool'}
+            if n.id in KIND_SUBST:
+                return KIND_SUBST[n.id]
             if n.id in m:
                 return m[n.id]
             return ('opaque', n.id)
